@@ -1,6 +1,7 @@
 import Drv.Gen
 import Drv.Parse
 import Drv.RefAlgo
+import Drv.ScriptGen
 /-! Executable monitors: they judge an *observed* trace (operation lines + observation lines, normally the
     implementation's) against the properties. `C02` compares with the reference `R`; `C01`, `C03`, `C04`, `C05`
     are recomputed from the raw history, independently of `R`. A handle is judged only while its history stays
@@ -400,6 +401,11 @@ structure JSt where
   slicesJudged : Nat := 0
   sliceWithCycle : Nat := 0
   merges : Nat := 0
+  scripts : Nat := 0
+  scriptsJudged : Nat := 0
+  scriptCommands : Nat := 0
+  scriptsMalformed : Nat := 0
+  sameChecks : Nat := 0
   mergesJudged : Nat := 0
   mergesOfTrees : Nat := 0
   mergesErr : Nat := 0
@@ -681,6 +687,55 @@ def judgeLine2 (j : JSt) (lineNo : Nat) (opLine obsLine : String) : JSt :=
               (j.setMon a { ma with r := ra', prevKeys := o.keys, origin := "C11", hist := hist', judged := true }).setMon b { mb with origin := "C11" }
       | _, _ => j
     | _, _, _, _ => j
+  | ["same", a, b] =>
+    -- the graph after the script and the graph after the direct calls must look the same
+    match parseHandle a, parseHandle b with
+    | some a, some b =>
+      let j := { j with sameChecks := j.sameChecks + 1 }
+      match j.lastObs.find? (·.1 = a), j.lastObs.find? (·.1 = b) with
+      | some (_, x), some (_, y) =>
+        if x == y then j else j.reject "C14" lineNo "the graph after deploy_to() differs from the graph after the same direct calls"
+      | _, _ => j.reject "C14" lineNo "one of the two graphs could not be observed"
+    | _, _ => j
+  | ["script", a, t] =>
+    match parseHandle a, parseTextTok t with
+    | some a, some text =>
+      let j := { j with scripts := j.scripts + 1 }
+      match j.getMon a with
+      | some m =>
+        if ¬ m.judged then j
+        else
+          let prog : List (Option ACmdC) := S.parseScript Ss.isWs Ss.pV Ss.pL Ss.pD text
+          let (r', want, k, valid) := refScript m.n m.cap prog m.r [] 0 true
+          if ¬ valid then j.setMon a { m with judged := false }
+          else
+            let o := parseObs obsLine
+            let wellFormed := prog.all (·.isSome)
+            let j := { j with scriptsJudged := j.scriptsJudged + 1, scriptCommands := j.scriptCommands + k,
+                              scriptsMalformed := j.scriptsMalformed + (if wellFormed then 0 else 1) }
+            let count := (words o.payload).headD ""
+            let j := if wellFormed ∧ (o.status ≠ "ok" ∨ count ≠ toString prog.length) then
+                j.reject "C14" lineNo s!"well-formed script of {prog.length} commands answered '{o.status} {count}'"
+              else if ¬ wellFormed ∧ o.status ≠ "err" then
+                j.reject "C14" lineNo s!"script whose command no.{k} is malformed answered '{o.status} {count}' instead of Err"
+              else if ¬ wellFormed ∧ count ≠ toString k then
+                j.reject "C14" lineNo s!"malformed command is no.{k}, Err names no.{count}"
+              else j
+            let j := if o.keys ≠ R.keys r' m.cap then
+                j.reject "C14" lineNo s!"after the script the graph holds {showNats o.keys}, the same calls give {showNats (R.keys r' m.cap)}"
+              else j
+            let newIds := o.keys.filter (· ∉ m.prevKeys)
+            let h0 : Hist := m.hist
+            let newEdges : List (Nat × List (Label × Nat)) := r'.ids.map (fun v => (v, r'.edg v))
+            let newPuts : List (Nat × List UInt8) := r'.ids.filterMap (fun v => (r'.dat v).map (fun d => (v, d.toBytes)))
+            let newUnread : List Nat := r'.ids.filter (fun v => r'.unr v)
+            let newPairs : List (Nat × Nat) := h0.pairs ++ r'.ids.flatMap (fun v => (r'.edg v).map (fun e => (v, e.2)))
+            let newBound : List Nat := h0.bound ++ r'.ids.flatMap (fun v => (r'.edg v).flatMap (fun e => [v, e.2]))
+            let hist' : Hist := Hist.mk newPairs newUnread newBound newEdges newPuts (h0.issued ++ newIds)
+            -- after a malformed command the allocator may have been consulted by the failing command: stop judging
+            j.setMon a { m with r := r', prevKeys := o.keys, origin := "C14", hist := hist', judged := wellFormed }
+      | none => j
+    | _, _ => j
   | ["save", _] => j
   | ["loadcuts", a, _] =>
     match (parseHandle a).bind j.getMon with
@@ -788,7 +843,7 @@ def PureMon.json (p : PureMon) : String :=
   "{" ++ s!"\"hex_lines\":{p.hexLines},\"concat_lines\":{p.concatLines},\"concat_law_failures\":{p.concatDefect},\"label_lines\":{p.labelLines},\"legal_texts\":{p.legalTexts},\"distinct_labels\":{p.seen.length},\"panics_agreed_with_slice\":{p.panicsAgreed}" ++ "}"
 
 def JSt.algoJson (j : JSt) : String :=
-  "{" ++ s!"\"slices\":{j.slices},\"slices_judged\":{j.slicesJudged},\"slices_with_cycle_or_back_edge\":{j.sliceWithCycle},\"merges\":{j.merges},\"merges_judged\":{j.mergesJudged},\"merges_of_two_trees\":{j.mergesOfTrees},\"merges_with_unreachable_vertices\":{j.mergesErr}" ++ "}"
+  "{" ++ s!"\"slices\":{j.slices},\"slices_judged\":{j.slicesJudged},\"slices_with_cycle_or_back_edge\":{j.sliceWithCycle},\"merges\":{j.merges},\"merges_judged\":{j.mergesJudged},\"merges_of_two_trees\":{j.mergesOfTrees},\"merges_with_unreachable_vertices\":{j.mergesErr},\"scripts\":{j.scripts},\"scripts_judged\":{j.scriptsJudged},\"script_commands_applied\":{j.scriptCommands},\"scripts_malformed\":{j.scriptsMalformed},\"script_vs_direct_comparisons\":{j.sameChecks}" ++ "}"
 
 def TextMon.json (t : TextMon) : String :=
   "{" ++ s!"\"xml_docs\":{t.xmlDocs},\"dot_docs\":{t.dotDocs},\"debug_docs\":{t.debugDocs},\"inspect_texts\":{t.inspects},\"inspect_with_cycle_marks\":{t.cyclesSeen},\"vprint_texts\":{t.vprints},\"same_content_pairs\":{t.sameContentPairs}" ++ "}"
